@@ -143,7 +143,7 @@ def gen_blocklike(rng, db):
     a, b = sub(rng.randrange(1, 4)), sub(rng.randrange(1, 4))
     c0, c1 = sub(rng.randrange(1, 3)), sub(rng.randrange(1, 4))
     shape = rng.randrange(3)
-    if shape == 0 and db.ok(c0) and db.ok(c1):
+    if shape <= 1 and db.ok(c0) and db.ok(c1):
         # a Merkle update whose sides are pruned branches (as in real blocks)
         p0 = db.add(*G.make_pruned_of(db.infos[c0], 1))
         p1 = db.add(*G.make_pruned_of(db.infos[c1], 1))
@@ -194,7 +194,7 @@ def state_hash_expect(nodes, infos, root, pn, proot):
         return 'acc x'
     o21 = child(nodes, o2, 1)
     p21 = child(pn, p2, 1)
-    if p21 is None:          # root[2] pruned or has < 2 refs
+    if p21 is None or pn[p2][0] != G.MUPDATE:          # root[2] pruned, has < 2 refs, or is not a Merkle update cell
         return 'acc x'
     return 'acc ' + hx(infos[o21].H[0])
 
@@ -330,6 +330,35 @@ def not_a_proof(ctx, rng, pn, pinfos, R, proot, h):
     run_proof_case(ctx, pn, proot, h, 'rej', 'sound:notproof', 'the proof body (not wrapped) accepted as Merkle proof', mut={'variant': 'body'})
 
 
+def forged_pruned(info_pruned, forged_hash, forged_depth=0):
+    """the level-2 pruned branch that keeps the level-1 hash/depth of the mask-1 pruned branch `info_pruned` (its
+    representation hash, depth 0) but stores a FORGED level-0 hash: every enclosing hash stays what it was."""
+    return (G.PRUNED, G.pruned_bits(3, [forged_hash, info_pruned.H[1]], [forged_depth, info_pruned.D[1]]), ())
+
+
+def forged_state_hash(ctx, rng, pn, pinfos, R, proot, h):
+    """root[2] is a Merkle update whose second child is a mask-1 pruned branch: swap in the forged level-2 branch."""
+    refs = pn[proot][2]
+    if len(refs) < 3 or pn[refs[2]][0] != G.MUPDATE:
+        return
+    c = pn[refs[2]][2][1]
+    if pn[c][0] != G.PRUNED or pinfos[c] is None or pinfos[c].mask != 1:
+        return
+    forged = rng.randbytes(32)
+    mut = list(pn)
+    mut[c] = forged_pruned(pinfos[c], forged, rng.randrange(0, 50))
+    libs = G.lib_build(mut)
+    ctx.count('forged-statehash')
+    goth = lib_verdict_hdr(libs[proot], h)
+    inp = {'op': 'hdr', 'dag': jnodes(mut), 'idx': proot, 'hash': h.hex(), 'expect': 'acc x', 'key': 'sound:statehash'}
+    ctx.case(('forged-statehash', tuple(mut), h))
+    if goth != 'acc x':
+        ctx.fail('sound:statehash', 'check_block_header_proof(..., True) returned a state hash that the block hash does not commit to '
+                 '(level-2 pruned branch with a forged level-0 hash under the state update)', inp, goth, 'acc x')
+    ctx.expect_model(f'chkhdr {dag_str(mut)} {proot} {hx(h)}', goth, 'sound:statehash')
+    ctx.expect_model(f'chkproof {dag_str(mut)} {R} {hx(h)}', lib_verdict_proof(libs[R], h), 'gray:forged-statehash')
+
+
 def generic_streams(ctx, rng):
     n_trees = ctx.n(140, 1400)
     exhaustive_left = ctx.n(10, 60)
@@ -363,6 +392,7 @@ def generic_streams(ctx, rng):
         else:
             mutate_bits(ctx, rng, pn, R, proot, h, False, ctx.n(14, 40))
         mutate_refs(ctx, rng, pn, pinfos, R, proot, h, ctx.n(4, 12))
+        forged_state_hash(ctx, rng, pn, pinfos, R, proot, h)
         if t % 3 == 0:
             wrong_hashes(ctx, rng, pn, pinfos, R, proot, h)
         if t % 5 == 0:
@@ -476,10 +506,7 @@ def gen_header(rng, db, state_info):
     old = db.add(G.ORD, G.rand_bits(rng, 30))
     p_old = db.add(*G.make_pruned_of(db.infos[old], 1))
     p_new = db.add(*G.make_pruned_of(state_info, 1))
-    if rng.random() < 0.7:
-        x = db.add(G.MUPDATE, G.mupdate_bits(db.infos[p_old], db.infos[p_new]), (p_old, p_new))
-    else:
-        x = db.add(G.ORD, G.rand_bits(rng, 9), (p_old, p_new))
+    x = db.add(G.MUPDATE, G.mupdate_bits(db.infos[p_old], db.infos[p_new]), (p_old, p_new))
     a = G.gen_exotic_tree(rng, db, 0, rng.randrange(1, 5))
     b = G.gen_exotic_tree(rng, db, 0, rng.randrange(1, 5))
     refs = [a, b, x] + ([G.gen_exotic_tree(rng, db, 0, 2)] if rng.random() < 0.5 else [])
@@ -645,6 +672,28 @@ def account_stream(ctx, rng):
             dm = list(dag)
             dm[i] = (k_, flip_bit(b_, rng.randrange(len(b_))), r_)
             run_account_case(ctx, dm, roots, blk_hash, key, sidx, 'rej', 'sound:bitflip', f'bit flip in unpruned cell {i} of the header proof accepted')
+        # forged state hash: the header's new-state branch replaced by a level-2 pruned branch naming ANOTHER state's hash
+        if True:
+            db2 = G.DagBuilder()
+            s2root, accs2, path2 = gen_state(rng, db2, rng.choice([1, 2, 3]))
+            if db2.ok(s2root) and db2.infos[s2root].H[0] != sinfo.H[0]:
+                k2 = next(iter(accs2))
+                a2 = accs2[k2]
+                hn = list(h_nodes)
+                hn[hp_new] = forged_pruned(h_infos[hp_new], db2.infos[s2root].H[0], db2.infos[s2root].D[0])
+                hi2 = G.spec_dag(hn)          # the Merkle update is no longer spec-valid, the library builds it anyway
+                dagx = []
+                o = append_dag(dagx, hn)
+                libs_h = G.lib_build(hn)
+                if libs_h[hroot] is not None:
+                    dagx.append((G.MPROOF, G.bytes_to_bits(bytes([3]) + libs_h[hroot].get_hash(0) + libs_h[hroot].get_depth(0).to_bytes(2, 'big')), (o + hroot,)))
+                    r0 = len(dagx) - 1
+                    o = append_dag(dagx, db2.nodes[:s2root + 1])
+                    dagx.append((G.MPROOF, G.mproof_bits(db2.infos[s2root]), (o + s2root,)))
+                    r1 = len(dagx) - 1
+                    ctx.count('forged-statehash-account')
+                    run_account_case(ctx, dagx, [r0, r1], blk_hash, k2, o + a2, 'rej', 'account:forged-statehash',
+                                     'forged shard state accepted: the header proof names its hash only in a level-2 pruned branch under the state update')
         # header commits to a different state
         if t % 3 == 0:
             db2 = G.DagBuilder()
@@ -677,6 +726,15 @@ def replay(ctx, payload):
         nodes = unj(inp['dag'])
         run_proof_case(ctx, nodes, inp['idx'], bytes.fromhex(inp['hash']), inp.get('expect'), inp.get('key', 'replay'), inp.get('what', 'replay'),
                        mut=inp.get('mutation'), hdr_idx=inp.get('hdr_idx'), hdr_expect=inp.get('hdr_expect'))
+    elif inp.get('op') == 'hdr':
+        nodes = unj(inp['dag'])
+        libs = G.lib_build(nodes)
+        h = bytes.fromhex(inp['hash'])
+        goth = lib_verdict_hdr(libs[inp['idx']], h)
+        ctx.case(('replay-hdr', tuple(nodes), h))
+        if inp.get('expect') is not None and goth != inp['expect']:
+            ctx.fail(inp.get('key', 'replay'), 'check_block_header_proof verdict differs from the expectation', inp, goth, inp['expect'])
+        ctx.expect_model(f'chkhdr {dag_str(nodes)} {inp["idx"]} {hx(h)}', goth, 'replay')
     elif inp.get('op') == 'acct':
         run_account_case(ctx, unj(inp['dag']), inp['roots'], bytes.fromhex(inp['blk_hash']), int(inp['addr'], 16), inp['state_idx'],
                          inp.get('expect'), inp.get('key', 'replay'), inp.get('what', 'replay'))
